@@ -80,7 +80,7 @@ impl Check for C52 {
 
     fn runs(&self, tier: Tier) -> u64 {
         match tier {
-            Tier::Quick => 4_000,
+            Tier::Quick => 2_500,
             Tier::Thorough => 300_000,
         }
     }
